@@ -421,6 +421,11 @@ func deviations() []deviation {
 	add(deviation{name: "crit-lists-absent-attr", j: J(jCrit(func(l []string) []string { return append(l, "com.example.absent") })),
 		c: C(cCrit(func(l []any) []any { return append(l, "com.example.absent") }))})
 	add(deviation{name: "ext-big-uint", c: C(cSet("x.big", uint64(12345678901234567890)))})
+	// an integer label and the text label with the same digits, only one of the pair critical
+	add(deviation{name: "ext-int-and-text-same-digits-int-critical", benign: true, c: C(cSet(int64(1000), "v1000"), cSet("1000", "text-1000"),
+		cCrit(func(l []any) []any { return append(l, int64(1000)) }))})
+	add(deviation{name: "ext-int-and-text-same-digits-text-critical", benign: true, c: C(cSet(int64(-65537), "neg"), cSet("-65537", "text-neg"),
+		cCrit(func(l []any) []any { return append(l, "-65537") }))})
 	add(deviation{name: "ext-int-labels", benign: true, c: C(cSet(int64(1000), "v1000"), cSet(int64(-70000), []byte{9}), cSet("1000", "text-1000"))})
 	add(deviation{name: "ext-int-crit", benign: true, c: C(cSet(int64(1001), int64(5)), cCrit(func(l []any) []any { return append(l, int64(1001)) }))})
 	add(deviation{name: "ext-text-3", benign: true, c: C(cSet("3", "looks-like-cty"), cSet("io.cncf.notary.verificationPlugin", "plug"))})
